@@ -389,8 +389,69 @@ def rule_identity(prog, rep):
 
 
 # ------------------------------------------------------------------------------------- R6
+def first_wins_on_models(prog, r):
+    """The five residue constructors are evaluated on model records: two atoms listed with a second alternate location (better occupied, other
+    coordinates), one atom listed once under its alternative name and once under its plain name.  Every atom name must be held once, with the
+    coordinates of the record listed first.  False if a constructor cannot be evaluated (the shape rule then decides)."""
+    from ..guards import Flow, Obj
+    from ..objinterp import ObjRunner
+
+    def record(cls, name, resname, k, alt="", x=None):
+        return Obj({"__class__": cls, "serial": k, "name": name, "alt_loc": alt, "res_name": resname, "chain_id": "A", "res_seq": 15, "ins_code": "",
+                    "x": float(k) if x is None else x, "y": 2.0, "z": 3.0, "occupancy": {"A": 0.4, "B": 0.6}.get(alt, 1.0), "temp_factor": 0.0, "seg_id": "", "element": name[0], "charge": "", "mol2charge": None})
+
+    cases = [("Residue", "residue.py", "ACT", ["C", "O", "OXT", "CH3"], {}), ("ALA", "aa.py", "ALA", ["N", "CA", "C", "O", "CB"], {"OT1": "O"}),
+             ("ADE", "na.py", "A", ["P", "O5'", "C5'", "N9"], {"O5*": "O5'"}), ("WAT", "aa.py", "HOH", ["O", "H1", "H2"], {"OW": "O", "OH2": "O"}),
+             ("LIG", "aa.py", "LIG", ["C1", "O1", "N1"], {"OX": "O1"})]
+    results = []
+    try:
+        for cls, rel, resname, names, altnames in cases:
+            shown = {"Residue": "Residue", "ALA": "Amino", "ADE": "Nucleic"}.get(cls, cls)
+            for rectype in ("ATOM", "HETATM"):
+                recs = [record(rectype, n_, resname, k, "A" if k <= 2 else "") for k, n_ in enumerate(names, start=1)]
+                recs.insert(2, record(rectype, names[0], resname, 50, "B", 77.0))   # second location of the first atom, right behind the first two
+                recs.append(record(rectype, names[1], resname, 51, "B", 78.0))      # second location of the second atom, at the end
+                want = {n_: float(k) for k, n_ in enumerate(names, start=1)}
+                if altnames:
+                    alt, plain = next(iter(altnames.items()))
+                    recs.append(record(rectype, alt, resname, 52, "", 79.0))        # an atom already listed, under its alternative name
+                ref = Obj({"__class__": "DefinitionResidue", "name": resname, "altnames": dict(altnames), "map": {n_: Obj({"__class__": "DefinitionAtom", "name": n_, "bonds": []}) for n_ in names}})
+
+                def extra(runner, interp, call, args, kw):
+                    if isinstance(call.func, ast.Attribute) and call.func.attr == "record_type" and not args:
+                        recv = interp.ev(call.func.value)
+                        if isinstance(recv, dict) and recv.get("__class__") in ("ATOM", "HETATM"):
+                            return recv["__class__"]
+                    return NotImplemented
+
+                run = ObjRunner(prog, rel, extra_hook=extra)
+                try:
+                    res = run.new(cls, recs) if cls == "Residue" else run.new(cls, recs, ref)
+                except Flow as fl:
+                    results.append((f"first-wins|{shown}" + ("" if rectype == "ATOM" else "|HETATM records"), False, f"{cls}(...) stops with {fl.value} on the model records"))
+                    continue
+                got = {}
+                twice = []
+                for a in res["atoms"]:
+                    if a.get("name") in got:
+                        twice.append(a.get("name"))
+                    got.setdefault(a.get("name"), a.get("x"))
+                in_map = {k_: v_.get("x") for k_, v_ in res["map"].items()} if isinstance(res.get("map"), dict) else None
+                ok = got == want and not twice and (in_map is None or in_map == want)
+                results.append((f"first-wins|{shown}" + ("" if rectype == "ATOM" else "|HETATM records"), ok,
+                                f"{cls} built from model {rectype} records (two atoms with a second alternate location, one atom listed again under an alternative name): "
+                                + ("every name held once, with the coordinates listed first" if ok else f"atoms held (name: x) {got}, twice {twice}, map {in_map}; expected {want}")))
+    except AnalysisError:
+        return False
+    for key, ok, what in results:
+        r.add(key, ok, what, "pdb2pqr/residue.py, aa.py, na.py (residue constructors)")
+    return True
+
+
 def rule_first_wins(prog, rep):
     r = rep.rule("R6", "first listed alternate location wins in every residue constructor", floor=5)
+    if first_wins_on_models(prog, r):
+        return
     ctors = [("residue.py", "Residue"), ("aa.py", "Amino"), ("na.py", "Nucleic"), ("aa.py", "WAT"), ("aa.py", "LIG")]
     for rel, cname in ctors:
         fn = prog.func(rel, f"{cname}.__init__").node
